@@ -3,6 +3,7 @@ package rules
 import (
 	"go/token"
 	"go/types"
+	"sort"
 	"strings"
 
 	"golang.org/x/tools/go/ssa"
@@ -32,6 +33,7 @@ func runC18(c *Ctx) {
 	r.Rule("R3-no-later-rewrite", "cookie fields stored only by constructors, splitCookie/joinCookies (Name, Value); copyCookie copies all attributes", 27)
 	r.Rule("R4-deletions", "deletions reuse name and options of the setters; cookie store deletes under the presented name", 8)
 	r.Rule("R6-host-port-free", "the request host is compared with cookie domains only with its port removed (selector and warning helper agree)", 2)
+	r.Rule("R7-request-context-kept", "every WithContext/Clone of the inbound request keeps a context derived from its own Context() (the request scope lives there)", 2)
 	r.Rule("R5-domain-order", "validation sorts domains longest-first; the list is never reordered or written afterwards", 4)
 
 	mk := c.Fn("R1-single-constructor", "pkg/cookies.MakeCookieFromOptions")
@@ -48,6 +50,7 @@ func runC18(c *Ctx) {
 
 	runC18R2(c, mk)
 	runC18R6(c, "R6-host-port-free")
+	runRequestContextKept(c, "R7-request-context-kept")
 
 	// ---- R3 ---------------------------------------------------------------------------------
 	rule = "R3-no-later-rewrite"
@@ -140,71 +143,7 @@ func runC18(c *Ctx) {
 	// shared with C11: run those rules under this property's rule name
 	runC11R3R4(c, "R4-deletions", "R4-deletions")
 
-	// ---- R5 ---------------------------------------------------------------------------------
-	rule = "R5-domain-order"
-	validate := c.Fn(rule, "pkg/validation.validateCookie")
-	domainsF := c.Field(rule, "pkg/apis/options.Cookie.Domains")
-	if validate != nil && domainsF != nil {
-		sorted := false
-		for _, b := range validate.Blocks {
-			for _, in := range b.Instrs {
-				call, ok := in.(*ssa.Call)
-				if !ok || !isStd(&call.Call, "sort", "Slice") {
-					continue
-				}
-				if !isFieldLoadOrValue(unwrap(call.Call.Args[0]), domainsF) {
-					continue
-				}
-				// comparator: len(d[i]) > len(d[j])
-				var cmp *ssa.Function
-				switch x := unwrap0(call.Call.Args[1]).(type) {
-				case *ssa.MakeClosure:
-					cmp = x.Fn.(*ssa.Function)
-				case *ssa.Function:
-					cmp = x
-				}
-				if cmp != nil && comparatorLongestFirst(cmp) {
-					sorted = true
-					c.ok(rule, "sorted|"+fnKey(validate), in, "sort.Slice(o.Domains, len(d[i]) > len(d[j])): longest first")
-				} else {
-					c.bad(rule, "sorted|"+fnKey(validate), in, "cookie domains are not sorted longest-first: a shorter domain shadows a more specific one", nil, 0)
-				}
-			}
-		}
-		if !sorted {
-			c.bad(rule, "sorted|"+fnKey(validate), validate.Blocks[0].Instrs[0], "validation no longer sorts the cookie domains longest-first", nil, 0)
-		}
-		// nobody else reorders or writes the list
-		n := 0
-		for _, fn := range c.P.ModFns {
-			pk := prog.Short(prog.FnPkg(fn).Path())
-			if fn == validate || strings.HasPrefix(pk, "pkg/apis/options") {
-				continue
-			}
-			for _, b := range fn.Blocks {
-				for _, in := range b.Instrs {
-					ld, ok := in.(*ssa.UnOp)
-					if !ok || !walk.IsFieldLoad(ld, domainsF) {
-						continue
-					}
-					n++
-					if why := mutatesSlice(c, ld, 0); why != "" {
-						c.bad(rule, "mutated|"+fnKey(fn), in, "the configured cookie-domain list is "+why+" after validation: the longest-first order the domain choice relies on is lost for later requests", nil, 0)
-					} else {
-						c.ok(rule, "read-only|"+fnKey(fn), in, "read-only use of the domain list")
-					}
-				}
-			}
-		}
-		for _, ref := range c.fieldRefs(domainsF) {
-			if ref.Kind == "store" && !strings.HasPrefix(prog.Short(prog.FnPkg(ref.Fn).Path()), "pkg/apis/options") {
-				c.bad(rule, "field-store|"+fnKey(ref.Fn), ref.In, "Cookie.Domains is reassigned outside option loading", nil, 0)
-			}
-		}
-		if n == 0 {
-			c.R.Unknown(rule, "readers", "-", "no reader of Cookie.Domains found")
-		}
-	}
+	runDomainOrderRule(c, "R5-domain-order")
 }
 
 // derivesWithAppend handles the builtin append before the generic derivation.
@@ -297,6 +236,17 @@ func mutatesSlice(c *Ctx, v ssa.Value, depth int) string {
 		case *ssa.MakeInterface:
 			if why := mutatesSlice(c, x, depth); why != "" {
 				return why
+			}
+		case *ssa.Store:
+			// spilled to a local cell (a parameter captured by a closure): follow the cell's loads
+			if al, ok := x.Addr.(*ssa.Alloc); ok && x.Val == v {
+				for _, r2 := range *al.Referrers() {
+					if ld, ok := r2.(*ssa.UnOp); ok && ld.Op == token.MUL {
+						if why := mutatesSlice(c, ld, depth); why != "" {
+							return why
+						}
+					}
+				}
 			}
 		}
 	}
@@ -704,4 +654,195 @@ func runC18R6(c *Ctx, rule string) {
 	if n == 0 {
 		c.R.Unknown(rule, "host-compare|none", "-", "no comparison of the request host with a cookie domain found in pkg/cookies")
 	}
+}
+
+// runDomainOrderRule: validation sorts the cookie domains longest-first and nobody reorders or writes
+// the shared list afterwards (C18.R5, also C11: setter and deleter pick the same domain only if the
+// order they both rely on is stable).
+func runDomainOrderRule(c *Ctx, rule string) {
+	validate := c.Fn(rule, "pkg/validation.validateCookie")
+	domainsF := c.Field(rule, "pkg/apis/options.Cookie.Domains")
+	if validate != nil && domainsF != nil {
+		sorted := false
+		for _, b := range validate.Blocks {
+			for _, in := range b.Instrs {
+				call, ok := in.(*ssa.Call)
+				if !ok || !isStd(&call.Call, "sort", "Slice") {
+					continue
+				}
+				if !isFieldLoadOrValue(unwrap(call.Call.Args[0]), domainsF) {
+					continue
+				}
+				// comparator: len(d[i]) > len(d[j])
+				var cmp *ssa.Function
+				switch x := unwrap0(call.Call.Args[1]).(type) {
+				case *ssa.MakeClosure:
+					cmp = x.Fn.(*ssa.Function)
+				case *ssa.Function:
+					cmp = x
+				}
+				if cmp != nil && comparatorLongestFirst(cmp) {
+					sorted = true
+					c.ok(rule, "sorted|"+fnKey(validate), in, "sort.Slice(o.Domains, len(d[i]) > len(d[j])): longest first")
+				} else {
+					c.bad(rule, "sorted|"+fnKey(validate), in, "cookie domains are not sorted longest-first: a shorter domain shadows a more specific one", nil, 0)
+				}
+			}
+		}
+		if !sorted {
+			c.bad(rule, "sorted|"+fnKey(validate), validate.Blocks[0].Instrs[0], "validation no longer sorts the cookie domains longest-first", nil, 0)
+		}
+		// nobody else reorders or writes the list
+		n := 0
+		for _, fn := range c.P.ModFns {
+			pk := prog.Short(prog.FnPkg(fn).Path())
+			if fn == validate || strings.HasPrefix(pk, "pkg/apis/options") {
+				continue
+			}
+			for _, b := range fn.Blocks {
+				for _, in := range b.Instrs {
+					ld, ok := in.(*ssa.UnOp)
+					if !ok || !walk.IsFieldLoad(ld, domainsF) {
+						continue
+					}
+					n++
+					if why := mutatesSlice(c, ld, 0); why != "" {
+						c.bad(rule, "mutated|"+fnKey(fn), in, "the configured cookie-domain list is "+why+" after validation: the longest-first order the domain choice relies on is lost for later requests", nil, 0)
+					} else {
+						c.ok(rule, "read-only|"+fnKey(fn), in, "read-only use of the domain list")
+					}
+				}
+			}
+		}
+		for _, ref := range c.fieldRefs(domainsF) {
+			if ref.Kind == "store" && !strings.HasPrefix(prog.Short(prog.FnPkg(ref.Fn).Path()), "pkg/apis/options") {
+				c.bad(rule, "field-store|"+fnKey(ref.Fn), ref.In, "Cookie.Domains is reassigned outside option loading", nil, 0)
+			}
+		}
+		if n == 0 {
+			c.R.Unknown(rule, "readers", "-", "no reader of Cookie.Domains found")
+		}
+	}
+}
+
+// runRequestContextKept: the per-request scope (reverse-proxy flag, request id, session) lives in the
+// request's context. Every (*http.Request).WithContext / Clone in request-handling module code is given
+// a context derived from that same request's Context() — through context.With* wrappers — never one
+// built from context.Background()/TODO(), which silently drops the scope: X-Forwarded-Host is then
+// ignored when the cookie domain is chosen (C18), reverse-proxy decisions flip (C16).
+func runRequestContextKept(c *Ctx, rule string) {
+	R := c.requestReachable(rule)
+	if R == nil {
+		return
+	}
+	var derives func(v ssa.Value, depth int) string
+	derives = func(v ssa.Value, depth int) string {
+		if depth > 8 {
+			return "a derivation too deep to decide"
+		}
+		v = unwrap0(v)
+		switch x := v.(type) {
+		case *ssa.Call:
+			sc := x.Call.StaticCallee()
+			if sc == nil {
+				if x.Call.IsInvoke() {
+					return "the result of " + x.Call.Method.Name()
+				}
+				return "the result of a dynamic call"
+			}
+			switch sc.String() {
+			case "(*net/http.Request).Context":
+				return ""
+			case "context.Background", "context.TODO":
+				return sc.String() + "()"
+			case "context.WithValue", "context.WithCancel", "context.WithTimeout", "context.WithDeadline", "context.WithoutCancel", "context.WithCancelCause", "context.WithTimeoutCause", "context.WithDeadlineCause":
+				return derives(x.Call.Args[0], depth+1)
+			}
+			if c.P.InModule(sc) && len(x.Call.Args) > 0 {
+				// module helper taking a context or request first: follow its first context-typed argument
+				for _, a := range x.Call.Args {
+					if strings.HasSuffix(a.Type().String(), "context.Context") {
+						return derives(a, depth+1)
+					}
+				}
+			}
+			return "the result of " + walk.CalleeName(&x.Call)
+		case *ssa.Extract:
+			return derives(x.Tuple, depth+1)
+		case *ssa.Phi:
+			for _, e := range x.Edges {
+				if why := derives(e, depth+1); why != "" {
+					return why
+				}
+			}
+			return ""
+		case *ssa.Parameter:
+			return "" // a context handed in by the caller: judged at the caller
+		case *ssa.UnOp:
+			if al, ok := x.X.(*ssa.Alloc); ok {
+				for _, st := range storesTo(al) {
+					if why := derives(st.Val, depth+1); why != "" {
+						return why
+					}
+				}
+				return ""
+			}
+		case *ssa.MakeInterface:
+			return derives(x.X, depth+1)
+		}
+		return "a value of unknown origin (" + v.Name() + ")"
+	}
+	n := 0
+	var fns []*ssa.Function
+	for fn := range R {
+		fns = append(fns, fn)
+	}
+	sort.Slice(fns, func(i, j int) bool { return fns[i].String() < fns[j].String() })
+	for _, fn := range fns {
+		pk := prog.Short(prog.FnPkg(fn).Path())
+		if pk == "pkg/requests" || pk == "providers" || strings.HasPrefix(pk, "pkg/providers") {
+			continue // outgoing requests to the identity provider, not the inbound request
+		}
+		for _, b := range fn.Blocks {
+			for _, in := range b.Instrs {
+				call, ok := in.(*ssa.Call)
+				if !ok || call.Call.StaticCallee() == nil {
+					continue
+				}
+				name := call.Call.StaticCallee().String()
+				if name != "(*net/http.Request).WithContext" && name != "(*net/http.Request).Clone" {
+					continue
+				}
+				n++
+				key := "request-context|" + fnKey(fn)
+				if why := derives(call.Call.Args[1], 0); why == "" {
+					c.ok(rule, key, in, "new context derives from the request's own Context()")
+				} else if probeOnly(call) {
+					c.ok(rule, key+"|probe", in, "reviewed: a throw-away clone used only as the argument of mux.Router.Match (route probing), never served")
+				} else {
+					c.R.Bad(rule, key, c.pos(in), "the inbound request is given a context derived from "+why+" instead of its own Context(): the request scope stored there (reverse-proxy flag, request id) is lost for everything downstream", nil, nil)
+				}
+			}
+		}
+	}
+	if n == 0 {
+		c.R.Unknown(rule, "request-context|none", "-", "no WithContext/Clone of an inbound request found (the scope middleware must have one)")
+	}
+}
+
+// probeOnly: the cloned request is only mutated locally and handed to (*mux.Router).Match.
+func probeOnly(clone *ssa.Call) bool {
+	for _, ref := range *clone.Referrers() {
+		switch x := ref.(type) {
+		case *ssa.FieldAddr, *ssa.DebugRef:
+		case *ssa.Call:
+			sc := x.Call.StaticCallee()
+			if sc == nil || sc.Name() != "Match" || sc.Pkg == nil || sc.Pkg.Pkg.Path() != "github.com/gorilla/mux" {
+				return false
+			}
+		default:
+			return false
+		}
+	}
+	return true
 }
